@@ -1,7 +1,163 @@
+import MythVerif.Model.Barrier
 import Driver.Util
-/-! `drv_barrier`: stub, to be filled in -/
+/-! `drv_barrier`: trace acceptor.  Replays a controller trace of a whole-library run on the barrier
+model: every barrier event must be an enabled model step of that thread with the same observed
+value (count read, CAS outcomes, the top the stack push/pop read, the thread popped / pushed to
+the run queue, the return value).  Objects are declared by `obj <name> barrier <N>` lines; events
+on other objects are skipped.
+
+The sleep-stack points are named by a preceding `ptname <NAME>` line when the controller prints
+them as `PT?`.  A trace from a library without the stack / return hooks is still accepted
+("coarse" mode): BLOCK_CB_ENQ then stands for `pushRead; pushCas ok`, WAKE_DEQ for
+`popRead; popCas ok`, SPIN_WAKE_DEQ for `popRead none`, and a BAR_READ of a thread that is about
+to return stands for its return. -/
 namespace Driver.Barrier
+open MythVerif MythVerif.Barrier
+
+structure Obj where
+  name : String
+  n : Nat
+  st : St
+  fine : Bool := false      -- STK_* events have been seen on this object
+
+structure Acc where
+  objs : List Obj := []
+  line : Nat := 0
+  accepted : Nat := 0
+  pending : Option String := none   -- name announced by the last `ptname` line
+  casFail : Nat := 0
+  pushFail : Nat := 0
+  popFail : Nat := 0
+  spins : Nat := 0
+  rets : Nat := 0
+  err : Option String := none
+
+def showL (l : List Nat) : String := toString l
+
+def showPc : PC → String
+  | .idle => "idle" | .retry => "retry" | .rd c => s!"rd{c}" | .exited => "exited" | .arr => "arr"
+  | .sw => "sw" | .pushc none => "pushc-" | .pushc (some x) => s!"pushc{x}" | .asleep => "asleep"
+  | .woken => "woken" | .lreset => "lreset" | .lpop acc => s!"lpop{showL acc}"
+  | .lpopc x nx acc => s!"lpopc {x} {showL nx} {showL acc}" | .lpush rem => s!"lpush{showL rem}" | .lret => "lret"
+
+def relevant (pt : String) : Bool :=
+  pt.startsWith "BAR_" || pt.startsWith "STK_" || pt == "PT?" || pt == "BLOCK_BEGIN" || pt == "BLOCK_CB_BEGIN" ||
+  pt == "BLOCK_CB_ENQ" || pt == "BLOCK_CB_END" || pt == "SPIN_WAKE_DEQ" || pt == "WAKE_DEQ" || pt == "WAKE_PUSH"
+
+/-- apply a list of labels -/
+def stepAll (n : Nat) (st : St) : List Lbl → Option St
+  | [] => some st
+  | l :: ls => match step n st l with
+    | some st' => stepAll n st' ls
+    | none => none
+
+inductive Act where
+  | steps (ls : List Lbl)          -- model steps to take
+  | check (ok : Bool) (what : String)  -- no model step: an assertion on the model state
+  | bad (why : String)
+
+def optTag (s : String) : Option (Option Nat) :=
+  if s == "-" then some none else (Driver.parseTag s).map some
+
+/-- what an event means for the model, given the current model state of its object -/
+def interp (o : Obj) (pt : String) (e : Driver.Ev) : Act :=
+  let tb := Driver.parseTag e.b
+  match pt, e.cur with
+  | "BAR_READ", some t =>
+      -- coarse mode: the previous wait of `t` returned without a BAR_RETURN event
+      let pre : List Lbl := match o.st.pc t with
+        | .woken => [.ret t 0]
+        | .lret => [.ret t SERIAL]
+        | _ => []
+      .steps (pre ++ [.read t e.v.toNat])
+  | "BAR_CAS", some t => .steps [.cas t (e.v == 1)]
+  | "BAR_RESET", some t => .steps [.reset t]
+  | "BAR_RETURN", some t => .steps [.ret t e.v.toNat]
+  | "BLOCK_BEGIN", _ => match tb with
+      | some t => .steps [.blockBegin t]
+      | none => .bad "no thread"
+  | "BLOCK_CB_BEGIN", _ => match tb with
+      | some t => .check (o.st.pc t == .sw) s!"callback of t{t} starts with its context saved"
+      | none => .bad "no thread"
+  | "STK_PUSH_READ", some t => match optTag e.b with
+      | some x => .steps [.pushRead t x]
+      | none => .bad "top is not a thread"
+  | "STK_PUSH_CAS", some t => .steps [.pushCas t (e.v == 1)]
+  | "BLOCK_CB_ENQ", _ => match tb with
+      | some t =>
+          -- fine mode: the push happened at STK_PUSH_CAS; this event may come arbitrarily late (the
+          -- thread may already have been popped, resumed elsewhere and be blocking again)
+          if o.fine then .check true ""
+          else .steps [.pushRead t o.st.stack.head?, .pushCas t true]
+      | none => .bad "no thread"
+  | "BLOCK_CB_END", _ => .check true ""
+  | "STK_POP_READ", some t => match optTag e.b with
+      | some x => .steps [.popRead t x]
+      | none => .bad "top is not a thread"
+  | "STK_POP_CAS", some t => .steps [.popCas t (e.v == 1)]
+  | "SPIN_WAKE_DEQ", some t =>
+      if o.fine then .check (match o.st.pc t with | .lpop _ => true | _ => false) s!"t{t} is popping"
+      else .steps [.popRead t none]
+  | "WAKE_DEQ", some t => match tb with
+      | some x =>
+          if o.fine then
+            .check (match o.st.pc t with
+                    | .lpop acc => acc.getLast? == some x
+                    | .lpush rem => o.st.wk.getLast? == some x && rem == o.st.wk
+                    | _ => false) s!"t{x} is the thread t{t} popped last"
+          else .steps [.popRead t (some x), .popCas t true]
+      | none => .bad "no thread"
+  | "WAKE_PUSH", some t => match tb with
+      | some x => .steps [.wakePush t x]
+      | none => .bad "no thread"
+  | _, _ => .bad "cannot attribute the event to a thread"
+
+def feed (acc : Acc) (line : String) : Acc :=
+  if acc.err.isSome then acc else
+  let acc := { acc with line := acc.line + 1 }
+  match Driver.words line with
+  | ["obj", name, "barrier", n] => { acc with objs := { name := name, n := n.toNat?.getD 0, st := init } :: acc.objs }
+  | ["ptname", nm] => { acc with pending := some nm }
+  | _ =>
+  match Driver.parseEv line with
+  | none => acc
+  | some e =>
+    let pt := if e.pt == "PT?" then acc.pending.getD "PT?" else e.pt
+    let acc := { acc with pending := none }
+    if !relevant pt then acc else
+    match acc.objs.find? (·.name == e.a) with
+    | none => acc      -- an object this acceptor does not own
+    | some o =>
+      let o := if pt.startsWith "STK_" then { o with fine := true } else o
+      let put (o' : Obj) (a : Acc) : Acc :=
+        { a with objs := a.objs.map (fun p => if p.name == o'.name then o' else p), accepted := a.accepted + 1 }
+      let diag := s!"count={o.st.count} stack={showL o.st.stack} N={o.n}"
+      match interp o pt e with
+      | .bad why => { acc with err := some s!"MISMATCH line {acc.line}: `{line.trimAscii.toString}`: {why}" }
+      | .check ok what =>
+          if ok then put o acc
+          else { acc with err := some s!"MISMATCH line {acc.line}: `{line.trimAscii.toString}`: model does not have: {what}; {diag}" }
+      | .steps ls =>
+          match stepAll o.n o.st ls with
+          | some st' =>
+              let acc := put { o with st := st' } acc
+              let acc := if pt == "BAR_CAS" && e.v != 1 then { acc with casFail := acc.casFail + 1 } else acc
+              let acc := if pt == "STK_PUSH_CAS" && e.v != 1 then { acc with pushFail := acc.pushFail + 1 } else acc
+              let acc := if pt == "STK_POP_CAS" && e.v != 1 then { acc with popFail := acc.popFail + 1 } else acc
+              let acc := if pt == "SPIN_WAKE_DEQ" then { acc with spins := acc.spins + 1 } else acc
+              let acc := if pt == "BAR_RETURN" then { acc with rets := acc.rets + 1 } else acc
+              acc
+          | none =>
+              let who := match ls.getLast? with | some l => showPc (o.st.pc l.actor) | none => "?"
+              { acc with err := some s!"MISMATCH line {acc.line}: model cannot do `{line.trimAscii.toString}` ({pt}): {diag} pc[actor]={who}" }
+
 def run (_args : List String) : IO UInt32 := do
-  IO.eprintln "drv_barrier: not implemented"
-  return 2
+  let stdin ← IO.getStdin
+  let acc ← Driver.forLines stdin ({} : Acc) fun a line => pure (feed a line)
+  match acc.err with
+  | some e => IO.println e; return 0
+  | none =>
+    IO.println s!"accepted {acc.accepted} cas_fail={acc.casFail} push_fail={acc.pushFail} pop_fail={acc.popFail} pop_spins={acc.spins} returns={acc.rets}"
+    return 0
+
 end Driver.Barrier
